@@ -574,6 +574,7 @@ func (r *vfQrDmRun) finalAudit() {
 
 func vfQrDmRunWalk(t *testing.T, conf vfQrDmConf, cert tls.Certificate, w vfh.Walk) (viol, l2 []vfQrViolation, executed, vstep int, crashed string) {
 	vstep = -1
+	defer vfQrProgress.Add(1)
 	synctest.Test(t, func(t *testing.T) {
 		r := &vfQrDmRun{t: t, conf: conf, cert: cert}
 		if err := r.start(); err != nil {
